@@ -145,7 +145,7 @@ InvDenInjective == DenInjective(m)
 InvRefExact == RefExact(m, Ledger)
 InvCacheSound == \A key \in DOMAIN m.cache : CacheEntrySound(m, key[1], key[2], key[3], m.cache[key])
 InvMinFree == MinFreeOK(m)
-InvDenMap == DenMapAgrees(m) /\ DenInjectiveFast(m) = DenInjective(m)
+InvDenMap == DenMapAgrees(m) /\ MaskMapAgrees(m) /\ DenInjectiveFast(m) = DenInjective(m)
 InvHeldLive == \A k \in Slots : h[k] # 0 => IsRef(m, h[k])
 
 (* every kept handle: same number, same function (by name), same external count *)
